@@ -480,6 +480,17 @@ def value_shapes(tier):
         add(f"C07 value OID root[{rt}] numbers", [], 'v', 'OBJECT IDENTIFIER', f"{{ {rt} 3 7 }}", V('oid', arcs=[rn, 3, 7]), 0)
     add("C07 value enumeral", ['Ee ::= ENUMERATED { one, two, three }'], 'v', 'Ee', 'two', V('enum', name='two'), 0)
     add("C07 value CHOICE int", ['Cc ::= CHOICE { p INTEGER, q BOOLEAN }'], 'v', 'Cc', f"p:{PH(0)}", V('choice', alt='p', inner=I(0)), 1)
+    # two ENUMERATED types with a common identifier: the enumeral belongs to the governing type, whatever the name order
+    for first, second in (('Apple', 'Colour'), ('Colour', 'Apple')):
+        defs = [f"{first} ::= ENUMERATED {{ green, red }}", f"{second} ::= ENUMERATED {{ red, green, blue }}"]
+        for gov in (first, second):
+            add(f"C07 value enumeral shared by two types, governed by {'the first' if gov == min(first, second) else 'the second'} in name order [{first} written first]", defs, 'v', gov, 'red', V('enum', name='red', ty=gov), 0)
+            add(f"C07 default enumeral shared by two types [{gov}]", defs + [f"Ss ::= SEQUENCE {{ x {gov} DEFAULT red }}"], None, None, None, V('enum', name='red', ty=gov), 0, dflt='ss_x_default')
+    # enumerals through chains of type references: wrapped in the delegate types
+    edefs = ['Ee ::= ENUMERATED { one, two }', 'Al ::= Ee', 'Bl ::= Al']
+    for gov in ('Al', 'Bl'):
+        add(f"C07 value enumeral through {gov}", edefs, 'v', gov, 'two', V('enum', name='two', ty='Ee'), 0)
+        add(f"C07 default enumeral through {gov}", edefs + [f"Ss ::= SEQUENCE {{ x {gov} DEFAULT two }}"], None, None, None, V('enum', name='two', ty='Ee'), 0, dflt='ss_x_default')
     add("C07 value CHOICE bool", ['Cc ::= CHOICE { p INTEGER, q BOOLEAN }'], 'v', 'Cc', "q:TRUE", V('choice', alt='q', inner=V('bool', b=True)), 0)
     add("C07 value SEQUENCE", ['Ss ::= SEQUENCE { x INTEGER, y BOOLEAN, z INTEGER }'], 'v', 'Ss', f"{{ x {PH(0)}, y TRUE, z {PH(1)} }}", V('seq', fields=[('x', I(0)), ('y', V('bool', b=True)), ('z', I(1))]), 2)
     add("C07 value SEQUENCE reordered", ['Ss ::= SEQUENCE { x INTEGER, y BOOLEAN, z INTEGER }'], 'v', 'Ss', f"{{ z {PH(1)}, x {PH(0)}, y TRUE }}", V('seq', fields=[('x', I(0)), ('y', V('bool', b=True)), ('z', I(1))]), 2)
@@ -775,6 +786,23 @@ def make_judge(syms_of):
                 got = ev.ev(c.expr)
         except EvalError as e:
             return [('denotation', f"initialiser does not denote a value: {e}")]
+        # the initialiser is of the declared type: both are compared when they name generated items (a value reached through a
+        # chain of type references is wrapped in exactly the delegate types of the chain; an enumeral belongs to its own type)
+        generated = {i.name for i in tokproj.find_items(items, 'struct')} | {i.name for i in tokproj.find_items(items, 'enum')}
+        decl = None
+        if info['dflt']:
+            sig = fn.sig
+            for k_, t_ in enumerate(sig):
+                if is_p(t_, '>') and k_ > 0 and is_p(sig[k_ - 1], '-'):
+                    decl = sig[k_ + 1:]
+        else:
+            decl = list(c.ty)
+        outer = got[1] if got[0] in ('wrap', 'enum', 'variant', 'struct') and isinstance(got[1], str) else None
+        if decl and len(decl) == 1 and isinstance(decl[0], TIdent) and idname(decl[0]) in generated and outer in generated and idname(decl[0]) != outer:
+            return [('declared-type', f"declared as {idname(decl[0])}, but the initialiser is a value of type {outer}")]
+        want_ty = getattr(info['expect'], 'ty', None)
+        if want_ty and unwrap(got)[0] == 'enum' and unwrap(got)[1] != want_ty:
+            return [('value', f"enumeral of type {unwrap(got)[1]}, the governing ENUMERATED type is {want_ty}")]
         fails = compare(chk, pc, got, info['expect'], syms)
         if chk is not None:
             chk.res.obligations += 1
